@@ -282,7 +282,7 @@ BLK_ASSUME = ['CdnsEncoder / CdnsDecoder replaced by the item-level token model 
 def blk_obl(kind, name, tiers=('quick', 'thorough'), maxm=3, timeout=900, canon=False, form=0):
     d = ['BLK_MAXM=%d' % maxm] + (['BLK_CANON=%d' % int(canon)] if canon else []) + (['BLK_FORM=%d' % form] if canon == 2 else [])
     # map loops: one iteration per member (+ break + exit); list loops: lists hold <= 2 entries
-    us = ({r'4readERNS_11CdnsDecoderE': 15, r'10read_arrayE': 4} if canon else {r'4readERNS_11CdnsDecoderE|10read_arrayE': maxm + 2}) if kind == 'r' else ()
+    us = ({r'4readERNS_11CdnsDecoderE': 21, r'10read_arrayE': 4} if canon else {r'4readERNS_11CdnsDecoderE|10read_arrayE': maxm + 2}) if kind == 'r' else ()
     suffix = '' if kind == 'w' else ({1: '_canon', 2: '_directed_f%d' % form}[int(canon)] if canon else '_m%d' % maxm)
     desc = {0: 'read(): reference encoding with members in any order, definite/indefinite, <= 2 unknown members, symbolic cut point: exact value back / CdnsDecoderEnd',
             1: 'read(): every member present, ascending key order, definite/indefinite, symbolic cut point: exact value back / CdnsDecoderEnd',
@@ -333,18 +333,18 @@ BLK_BLOCK = [n for n in BLK_W if n not in BLK_PREAMBLE]
 PROPS['C02'] = {
     'obligations': blk_set('w', BLK_W),
     'explanation': 'Obl-W: every *::write of the schema code is executed on a symbolic structure (every optional independently present or absent, including structures with no member set and empty lists) '
-                   'against the item acceptor: exactly one item, declared length == members present, every key followed by one value. The document-level automaton of the exporter is the exporter obligation (pending).',
+                   'against the item acceptor: exactly one item, declared length == members present, every key followed by one value. Block level: CdnsBlock::write helpers (w_blocktables, w_block). Document level: the exporter obligations (exp_write_block, exp_rotate, exp_destroy): header exactly once before the first block, one break iff blocks were written.',
     'assumptions': BLK_ASSUME,
 }
 PROPS['C10'] = {
     'obligations': blk_set('w', BLK_W) + [o for o in enc_obls('C10') if 'bs9' in o.name and ('_u64_' in o.name or '_i64_' in o.name or 'array_start' in o.name or 'bytestring_bs9_len' in o.name)],
     'explanation': 'L1: each encoder operation returns the bytes it appended (C06 harness, second assertion). L2: with the encoder returning an arbitrary positive size per call, every *::write returns exactly the sum '
-                   '(a dropped or doubled "written +=" is a counterexample). Exporter-level sums: exporter obligation (pending).',
+                   '(a dropped or doubled "written +=" is a counterexample). Exporter-level sums: exp_buffer_*, exp_write_block*, exp_rotate return exactly the bytes handed to the writer.',
     'assumptions': BLK_ASSUME,
 }
 PROPS['C09'] = {
     'obligations': blk_set('wr', sorted(BLK_PREAMBLE)),
-    'explanation': 'Preamble structures: write() == reference encoding and read(reference encoding) == value, member for member including presence and list order; FilePreamble itself: pending.',
+    'explanation': 'Preamble structures: write() == reference encoding and read(reference encoding) == value, member for member including presence and list order. FilePreamble, StorageParameters, CollectionParameters, BlockParameters readers: directed obligations (every member present, ascending keys, all values symbolic, length form per obligation); symbolic member orders for these four are thorough-tier obligations that may end without a verdict (then reported inconclusive, never as success).',
     'assumptions': BLK_ASSUME,
 }
 PROPS['C08'] = {
@@ -356,7 +356,7 @@ PROPS['C08'] = {
 PROPS['C01'] = {
     'obligations': blk_set('wr', BLK_BLOCK),
     'explanation': 'Compositional: L1 = C06 + C07 (bytes <-> items), L2 = per structure write() == RFC 8618 reference encoding and read(reference encoding) == value (this check), time offsets: data flow here, arithmetic C17. '
-                   'Block-level composition (tables, arrays of items, generic records): pending obligations.',
+                   'Block-level composition: w_blocktables / w_block (writer side); generic record -> block: C04 obligations (hint_*). CdnsBlockRead (reader side of a whole block) is not encoded.',
     'assumptions': BLK_ASSUME,
 }
 
@@ -473,12 +473,16 @@ def hint_obl(name, entry, desc, defines=(), tiers=('quick', 'thorough'), timeout
 
 
 PROPS['C04'] = {
-    'obligations': [hint_obl('hint_aec', 'h_hint_aec', 'add_address_event_count under every other-data hint mask: stored iff the bit is set; nothing reaches the address table otherwise; repeated key', timeout=1500),
+    'obligations': [blk_obl('w', 'storagehints'), blk_obl('r', 'storagehints', tiers=('quick',), canon=2, form=0),
+                    hint_obl('hint_aec', 'h_hint_aec', 'add_address_event_count under every other-data hint mask: stored iff the bit is set; nothing reaches the address table otherwise; repeated key', timeout=1500),
                     hint_obl('hint_qr_g1', 'h_hint_qr', 'add_question_response_record, every hint mask, record scalars + client address + time symbolic: member present iff bit set and value given, values kept, address table holds only referenced entries', defines=['HINT_GROUP=1'], timeout=1500),
-                    hint_obl('hint_qr_g2', 'h_hint_qr', 'add_question_response_record, every hint mask, signature members + server address symbolic: signature stored iff its bit is set, member present iff bit set and value given', defines=['HINT_GROUP=2'], timeout=2400, mem_gb=30),
+                    hint_obl('hint_qr_g2a', 'h_hint_qr', 'add_question_response_record, every hint mask, signature members server address/port/transport/type/flags symbolic: signature stored iff its bit is set, member present iff bit set and value given', defines=['HINT_GROUP=21'], timeout=1500),
+                    hint_obl('hint_qr_g2b', 'h_hint_qr', 'same for opcode, DNS flags, rcode, qdcount, ancount', defines=['HINT_GROUP=22'], timeout=1500),
+                    hint_obl('hint_qr_g2c', 'h_hint_qr', 'same for nscount, arcount, EDNS version, UDP size, response rcode', defines=['HINT_GROUP=23'], timeout=1500),
+                    hint_obl('hint_qr_g2', 'h_hint_qr', 'all signature members symbolic at once', defines=['HINT_GROUP=2'], tiers=('thorough',), timeout=5400, mem_gb=40),
                     hint_obl('hint_mm', 'h_hint_mm', 'add_malformed_message under every other-data mask: stored iff the bit is set, members/tables exact, earliest time', tiers=('thorough',), timeout=3600, mem_gb=30),
                     hint_obl('hint_qr_all', 'h_hint_qr', 'add_question_response_record with every scalar member symbolic at once', defines=['HINT_GROUP=0'], tiers=('thorough',), timeout=5400, mem_gb=30)],
-    'explanation': 'placeholder',
+    'explanation': 'The real add_* bodies of block.cpp run on real BlockTables (model containers) with all four hint masks fully symbolic. Per obligation a group of record members is symbolic (present/absent and value), the others concretely absent: stored member present <=> hint bit set and value given; value kept; signature stored only if its bit is set; the address table holds exactly the addresses a stored member refers to (a value inserted before its guard is a counterexample); address events stored only under their bit. Preamble states the masks: w_storagehints (C09 unit).',
     'assumptions': ['model containers (stubs/) in place of libstdc++', 'CRC-32C intrinsics: mixing model (hash values are not the subject)'],
     'translation_validation': True,
 }
